@@ -1,6 +1,8 @@
 import RJson.Gen.Facts
 import RJson.Proofs.Sizes
 import RJson.Props.C10
+import RJson.Props.C14
+import RJson.Proofs.StackSize
 /-!
 # C19 (partial) — scalar reads, skipping and handler traversal allocate nothing on success: the logical part
 
@@ -18,8 +20,12 @@ What a theorem can carry about "zero heap allocations":
      the capacity `growBytesSliceCapacity(dst, len(dst)+len(data))` reserves up front, so a destination with spare
      capacity of at least the input length is never re-allocated,
    * `growBytesSliceCapacity`'s own `make`/`append` (taken only when the capacity is insufficient),
-   * the `prepush` growth `append(stack, make([]int, 1+top-len(stack))...)` of the four generated machines (taken
-     only when `top+1 >= len(stack)`; a buffer already used on a document at least as deeply nested is long enough);
+   * the `prepush` growth `append(stack, make([]int, 1+top-len(stack))...)` of the four generated machines: it appends
+     a positive number of elements only when the live height exceeds the slice — `stack_size`: the slice after a run
+     has length `max (initial length) (height the run reached)`, for the regenerated tables, every handler and every
+     re-entrant interference; hence `warm_buffer_no_growth`: a `Buffer` already used on a document whose run reached
+     at least the same height (in particular: the same document again, or any document nested no deeper in the
+     machine's own sense) is not grown again;
    `internal/fp` (all three conversion paths) contains no such construct at all.
 2. **Termination with bounded work**: C10 (`2·len+1` loop iterations).
 
@@ -36,5 +42,29 @@ def expectedSites : List String := ["ReadInt | lib:fmt.Errorf", "ReadInt64 | lib
 
 theorem reach_expected : Gen.Facts.zeroAllocReach = expectedReach := by decide
 theorem alloc_sites_expected : Gen.Facts.zeroAllocSites = expectedSites := by decide
+
+/-! ## the stack slice is grown only up to the height the run reaches -/
+
+open RJson.Ragel in
+/-- for each of the four generated machines (regenerated tables), every handler and every re-entrant interference:
+    the stack slice after the call is as long as the longer of the slice handed in and the height the run reached -/
+theorem stack_size {τ} (f : C14.Fn) (data : Bytes) (h : Handler τ) (hv : Havoc Nat) (stack0 : Array Nat) (dst : Bytes) (hs : τ) :
+    (runA f.machine data h hv stack0 dst hs).2.size = max stack0.size (heightL f.machine data h dst hs) :=
+  runA_size f.machine data h hv stack0 dst hs (C14.fn_noBD f data h dst hs)
+
+open RJson.Ragel in
+/-- **a warmed buffer is not grown**: after a call on `data1`, a call (same machine) on a document whose run reaches
+    no greater height leaves the slice length unchanged — `prepush` appends nothing, so no allocation for the stack -/
+theorem warm_buffer_no_growth {τ} (f : C14.Fn) (data1 data2 : Bytes) (h1 h2 : Handler τ) (hv1 hv2 : Havoc Nat)
+    (stack0 : Array Nat) (dst1 dst2 : Bytes) (hs1 hs2 : τ)
+    (hle : heightL f.machine data2 h2 dst2 hs2 ≤ heightL f.machine data1 h1 dst1 hs1) :
+    (runA f.machine data2 h2 hv2 (runA f.machine data1 h1 hv1 stack0 dst1 hs1).2 dst2 hs2).2.size =
+      (runA f.machine data1 h1 hv1 stack0 dst1 hs1).2.size :=
+  warm_no_growth f.machine data1 data2 h1 h2 hv1 hv2 stack0 dst1 dst2 hs1 hs2
+    (C14.fn_noBD f data1 h1 dst1 hs1) (C14.fn_noBD f data2 h2 dst2 hs2) hle
+
+open RJson.Ragel in
+/-- non-vacuity: `[[1]]` reaches height 2 in `SkipValue` -/
+example : heightL Gen.SkipValue.machine #[91, 91, 49, 93, 93] noHandler #[] () = 2 := by decide +kernel
 
 end RJson.C19
